@@ -422,7 +422,7 @@ def w_F37(ctx):
     d = {"factors": [a, b], "block": {"k": "nest", "cs": [{"k": "MinimumTrials", "n": 5}, {"k": "Pin", "idx": 0, "f": 10, "l": 0}], "align": None,
          "outer": {"k": "cross", "design": [0], "crossing": [0], "rcc": True, "cs": []},
          "inner": {"k": "cross", "design": [10], "crossing": [10], "rcc": True, "cs": []}}}
-    return _design(ctx, d, ["trialcount"])
+    return _design(ctx, d, ["trialcount", "sound"])
 
 
 def w_F30(ctx):
